@@ -320,6 +320,15 @@ func (st *State) check(kind, label, prop, src, where, goal string) {
 	if kind == "nopanic" && st.vf.fc != nil && st.vf.fc.NoPanicProp != "" {
 		prop = st.vf.fc.NoPanicProp
 	}
+	// obligations that come from a flag of the contract (lockcheck, nopanic, nonblocking, delivers, guarded maps) carry a
+	// default property (C14 / C12 / C11): when the function under contract does not serve that property, they count under
+	// the properties it does serve (otherwise they would be generated and never reported under any property)
+	switch kind {
+	case "lock", "nopanic", "nonblock", "delivery", "guarded":
+		if fc := st.vf.fc; fc != nil && prop != "" && !strings.Contains(prop, ",") && len(fc.Props) > 0 && !fc.Props[prop] {
+			prop = st.vf.propsOf(prop)
+		}
+	}
 	cont := goal // what holds when execution continues past this point
 	if kind == "nopanic" && goal != "false" && goal != "true" {
 		if st.vf.fc != nil && st.vf.fc.Flags["recovered"] {
